@@ -1,6 +1,7 @@
 package main
 
 import (
+	"bytes"
 	"crypto/ecdsa"
 	"crypto/elliptic"
 	"crypto/rand"
@@ -169,6 +170,27 @@ func evalDid(line string) (out string, rd string) {
 		return "ok " + hx(raw), rd
 	case "go.did.roundtrip":
 		return didRoundTrip(f[1], f[2]), line
+	case "go.did.undef":
+		// the zero DID (what Subject() of a powerline delegation or Audience() of an invocation without audience
+		// return) has no key: an error, and key extraction from other DIDs goes on working afterwards
+		if _, err := did.Undef.PubKey(); err == nil {
+			return "did.Undef.PubKey() returned a key", line
+		}
+		pub, err := didKey("ed25519", "u")
+		if err != nil {
+			return "keygen: " + err.Error(), line
+		}
+		d, err := did.FromPubKey(pub)
+		if err != nil {
+			return "FromPubKey: " + err.Error(), line
+		}
+		for i := 0; i < 3; i++ {
+			if k, err := d.PubKey(); err != nil || !k.Equals(pub) {
+				return "after PubKey() on the undefined DID, key extraction from a valid DID fails", line
+			}
+			_, _ = did.Undef.PubKey()
+		}
+		return "ok", line
 	case "go.did.concurrent":
 		return didConcurrent(f[1]), line
 	}
@@ -176,6 +198,9 @@ func evalDid(line string) (out string, rd string) {
 }
 
 var didKeys = map[string]crypto.PubKey{}
+
+// didPoints: the compressed SEC1 form of the ECDSA-typed secp256k1 keys, computed from the coordinates directly
+var didPoints = map[string][]byte{}
 
 func didKey(alg, i string) (crypto.PubKey, error) {
 	id := alg + "#" + i
@@ -200,6 +225,7 @@ func didKey(alg, i string) (crypto.PubKey, error) {
 				continue
 			}
 			_, pub, err = crypto.ECDSAKeyPairFromKey(priv)
+			didPoints[id] = append([]byte{byte(2 + priv.Y.Bit(0))}, priv.X.FillBytes(make([]byte, 32))...)
 			break
 		}
 	case "p256":
@@ -210,6 +236,10 @@ func didKey(alg, i string) (crypto.PubKey, error) {
 		_, pub, err = crypto.GenerateECDSAKeyPairWithCurve(elliptic.P521(), rand.Reader)
 	case "rsa":
 		_, pub, err = crypto.GenerateRSAKeyPair(2048, rand.Reader)
+	case "rsa3072":
+		_, pub, err = crypto.GenerateRSAKeyPair(3072, rand.Reader)
+	case "rsa4096":
+		_, pub, err = crypto.GenerateRSAKeyPair(4096, rand.Reader)
 	}
 	if err == nil {
 		didKeys[id] = pub
@@ -245,6 +275,28 @@ func didRoundTrip(alg, i string) string {
 	}
 	if alg != "secp256k1-ecdsa" && !k2.Equals(pub) {
 		return "key extracted from the DID is not equal to the original key"
+	}
+	if alg == "secp256k1-ecdsa" {
+		// same POINT: the extracted native key, compressed, is the original point compressed
+		if want, ok := didPoints[alg+"#"+i]; ok {
+			if got, err := k2.Raw(); err == nil && !bytes.Equal(got, want) {
+				return "the key extracted from the DID of an ECDSA-typed secp256k1 key is another point than the original"
+			}
+		}
+	}
+	// what a caller does with the bytes of an extracted key does not reach the DID (nor later extractions)
+	if raw, err := k2.Raw(); err == nil {
+		for i := range raw {
+			raw[i] ^= 0xff
+		}
+		if d2.String() != s || d2 != d {
+			return "overwriting the bytes returned by an extracted key's Raw() changed the DID"
+		}
+		if k3, err := d2.PubKey(); err != nil {
+			return "after a caller overwrote the bytes of an extracted key, PubKey fails: " + err.Error()
+		} else if d4, err := did.FromPubKey(k3); err != nil || d4 != d {
+			return "after a caller overwrote the bytes of an extracted key, PubKey yields another key"
+		}
 	}
 	// a second key of the same algorithm gives a different DID
 	other, err := didKey(alg, i+"'")
@@ -334,6 +386,12 @@ func runDidStream(c *ctx) error {
 	}
 	c.emit("go.did.roundtrip secp256k1-ecdsa short", "did.roundtrip:secp256k1-ecdsa", true, "roundtrip:secp256k1-ecdsa-short")
 	c.emit("go.did.roundtrip rsa 0", "did.roundtrip:rsa", true, "roundtrip:rsa")
+	c.emit("go.did.roundtrip rsa3072 0", "did.roundtrip:rsa", true, "roundtrip:rsa3072")
+	c.emit("go.did.roundtrip rsa4096 0", "did.roundtrip:rsa", true, "roundtrip:rsa4096")
+	for i := 0; i < 8; i++ {
+		c.emit(fmt.Sprintf("go.did.roundtrip secp256k1-ecdsa p%d", i), "did.roundtrip:secp256k1-ecdsa", true, "roundtrip:secp256k1-ecdsa")
+	}
+	c.emit("go.did.undef 0", "did.undef", true, "undef")
 	for _, a := range algs {
 		c.emit("go.did.concurrent "+a, "did.concurrent:"+a, true, "concurrent:"+a)
 	}
